@@ -1,4 +1,5 @@
 (* C09 — Writer calls are validated, and a refused call changes nothing. *)
+From MLA Require Import Limit.
 From MLA Require Import Base Stream Blocks Writer WriterProofs Inst.
 From MLAGen Require Src.
 Open Scope N_scope.
@@ -8,14 +9,14 @@ Open Scope N_scope.
    duplicate name: EDup; over-long name: ENameTooLong) leaves the WHOLE writer state — bytes
    emitted, position, ids, maps, current id — exactly as it was.  For every state, not only
    reachable ones, every name-length limit, block tags, hash function and footer order. *)
-Theorem C09_refused_noop :
+Theorem C09_refused_noop {LIM : Limit} :
   forall FNMAX TS TC TA TE H order s o s' e,
     wstep FNMAX TS TC TA TE H order s o = (s', Err e) -> pre_write e = true -> s' = s.
 Proof. exact refused_noop. Qed.
 
 (* so any sequence continues after a refusal, and the final archive equals the one built
    without the refused calls (same final state, same results of the remaining calls) *)
-Theorem C09_refused_erasable :
+Theorem C09_refused_erasable {LIM : Limit} :
   forall FNMAX TS TC TA TE H order ops s,
     let '(s1, rs) := wrun FNMAX TS TC TA TE H order s ops in
     wrun FNMAX TS TC TA TE H order s (erase ops rs) = (s1, kept rs).
@@ -25,12 +26,12 @@ Proof. exact refused_erasable. Qed.
 Theorem C09_short_source_not_ok :
   forall TC s id size src, len src < size -> forall s' v, w_append TC s id size src <> (s', Ok v).
 Proof. intros TC. exact (short_source_not_ok TC (fun b => b)). Qed.
-Theorem C09_short_source_add_not_ok :
+Theorem C09_short_source_add_not_ok {LIM : Limit} :
   forall FNMAX TS TC TA TE H order s name size src, len src < size ->
     forall s' v, wstep FNMAX TS TC TA TE H order s (OAdd name size src) <> (s', Ok v).
 Proof. exact short_source_add_not_ok. Qed.
 
-Theorem C09_finalized_refuses :
+Theorem C09_finalized_refuses {LIM : Limit} :
   forall FNMAX TS TC TA TE H order s o, w_final s = true -> o <> OFlush ->
     wstep FNMAX TS TC TA TE H order s o = (s, Err EState).
 Proof. exact finalized_refuses. Qed.
@@ -38,7 +39,7 @@ Proof. exact finalized_refuses. Qed.
 (* non-vacuity: a concrete sequence with a refused duplicate, an over-long name and a short
    source behaves as stated *)
 Example C09_example :
-  let step := wstep 4 0 1 254 255 (fun b => b) (fun f => f) in
+  let step := wstep (LIM := Src.BINCODE_MAX_DESERIALIZE_prod) 4 0 1 254 255 (fun b => b) (fun f => f) in
   let '(s1, r1) := step w_init (OStart [97]) in
   let '(s2, r2) := step s1 (OStart [97]) in
   let '(s3, r3) := step s2 (OStart [1;2;3;4;5]) in
@@ -68,8 +69,8 @@ Theorem C09_tie_end_file_sim : ltac:(let t := type of SrcTie2.end_file_sim in ex
 Proof. exact SrcTie2.end_file_sim. Qed.
 Print Assumptions C09_tie_end_file_sim.
 Check SrcTie2.finalize_sim.
-Theorem C09_tie_finalize_sim : ltac:(let t := type of SrcTie2.finalize_sim in exact t).
-Proof. exact SrcTie2.finalize_sim. Qed.
+Theorem C09_tie_finalize_sim : ltac:(let t := type of @SrcTie2.finalize_sim in exact t).
+Proof. exact @SrcTie2.finalize_sim. Qed.
 Print Assumptions C09_tie_finalize_sim.
 Check SrcTie2.RInv_init.
 Theorem C09_tie_RInv_init : ltac:(let t := type of SrcTie2.RInv_init in exact t).
@@ -93,7 +94,7 @@ Import SrcTie2 CarryWriter.
    (the from_config value is: C09_tie_RInv_init), returns the model's results call by call, ends in a
    state whose abstraction is the model's final state, with the same destination bytes, and stays in
    the invariant *)
-Theorem C09_src_wrun_sim :
+Theorem C09_src_wrun_sim {LIM : Limit} :
   forall FNMAX TS TC TA TE H order ops (s : Src2.ArchiveWriter), RInv s ->
     let '(s', rs) := src_wrun FNMAX TS TC TA TE H order s ops in
     absW s' = fst (wrun FNMAX TS TC TA TE H order (absW s) ops) /\
@@ -104,14 +105,14 @@ Proof. exact src_wrun_sim. Qed.
 (* a call of the TRANSLATED writer refused for a reason known before writing leaves the whole Rust
    value as it was: destination bytes, state enum with its id vector and hash map, files_info,
    ids_info, next_id, current_id (absW is injective on the invariant: C09_absW_inj) *)
-Theorem C09_refused_noop_src :
+Theorem C09_refused_noop_src {LIM : Limit} :
   forall FNMAX TS TC TA TE H order (s : Src2.ArchiveWriter) o s' e, RInv s ->
     src_wstep FNMAX TS TC TA TE H order s o = (s', Err e) -> pre_write e = true -> s' = s.
 Proof. exact refused_noop_src. Qed.
 Theorem C09_absW_inj : forall s s' : Src2.ArchiveWriter, RInv s -> RInv s' -> absW s = absW s' -> s = s'.
 Proof. exact absW_inj. Qed.
 
-Theorem C09_refused_erasable_src :
+Theorem C09_refused_erasable_src {LIM : Limit} :
   forall FNMAX TS TC TA TE H order ops (s : Src2.ArchiveWriter), RInv s ->
     let '(s1, rs) := src_wrun FNMAX TS TC TA TE H order s ops in
     src_wrun FNMAX TS TC TA TE H order s (erase ops rs) = (s1, kept rs).
@@ -119,7 +120,7 @@ Proof. exact refused_erasable_src. Qed.
 
 (* after Finalized every translated method but flush returns WrongWriterState and the value is
    unchanged — for EVERY value of the Rust struct, in the invariant or not *)
-Theorem C09_finalized_refuses_src :
+Theorem C09_finalized_refuses_src {LIM : Limit} :
   forall FNMAX TS TC TA TE H order (s : Src2.ArchiveWriter) o,
     Src2.state s = Src2.Finalized -> o <> OFlush ->
     src_wstep FNMAX TS TC TA TE H order s o = (s, Err EState).
@@ -133,13 +134,14 @@ Proof. intros FNMAX TS TC TA TE. exact (short_source_not_ok_src FNMAX TS TC TA T
 Theorem C09_short_source_add_not_ok_src :
   forall FNMAX TS TC TA TE H (s : Src2.ArchiveWriter) name size src, RInv s -> len src < size ->
     forall s' v, Src2.add_file FNMAX TS TC TA TE H s name size src <> (s', Ok v).
-Proof. intros FNMAX TS TC TA TE H. exact (short_source_add_not_ok_src FNMAX TS TC TA TE H (fun f => f)). Qed.
+Proof. intros FNMAX TS TC TA TE H. exact (short_source_add_not_ok_src (LIM := 0) FNMAX TS TC TA TE H (fun f => f)).
+  (* the statement does not mention the limit; the lemma is proved through the model's wstep, for any limit *) Qed.
 
 (* non-vacuity THROUGH THE GENERATED CODE: a duplicate, an over-long name, an unknown id are refused and
    leave the translated writer value unchanged; a short source is reported; a run ending in finalize is
    all Ok and a later call is refused *)
 Example C09_example_src :
-  (let step := src_wstep 4 0 1 254 255 (fun b => b) (fun f => f) in
+  (let step := src_wstep (LIM := Src.BINCODE_MAX_DESERIALIZE_prod) 4 0 1 254 255 (fun b => b) (fun f => f) in
    let '(s1, r1) := step aw0 (OStart [97]) in
    let '(s2, r2) := step s1 (OStart [97]) in
    let '(s3, r3) := step s2 (OStart [1;2;3;4;5]) in
@@ -147,10 +149,10 @@ Example C09_example_src :
    let '(s5, r5) := step s3 (OEnd 7) in
    r1 = Ok 0 /\ r2 = Err EDup /\ s2 = s1 /\ r3 = Err ENameTooLong /\ s3 = s1 /\ r4 = Err EShortSource /\
    r5 = Err EState /\ s5 = s3) /\
-  (let '(sf, rs) := src_wrun 4 0 1 254 255 (fun b => b) (fun f => f) aw0
+  (let '(sf, rs) := src_wrun (LIM := Src.BINCODE_MAX_DESERIALIZE_prod) 4 0 1 254 255 (fun b => b) (fun f => f) aw0
                       [OStart [97]; OAppend 0 2 [7; 8]; OAdd [98] 1 [9]; OFlush; OEnd 0; OFinalize] in
    rs = [Ok 0; Ok 0; Ok 0; Ok 0; Ok 0; Ok 0] /\ Src2.state sf = Src2.Finalized /\
-   snd (src_wstep 4 0 1 254 255 (fun b => b) (fun f => f) sf (OStart [99])) = Err EState).
+   snd (src_wstep (LIM := Src.BINCODE_MAX_DESERIALIZE_prod) 4 0 1 254 255 (fun b => b) (fun f => f) sf (OStart [99])) = Err EState).
 Proof. split; vm_compute; repeat split; reflexivity. Qed.
 
 Print Assumptions C09_src_wrun_sim.
@@ -160,3 +162,50 @@ Print Assumptions C09_refused_erasable_src.
 Print Assumptions C09_finalized_refuses_src.
 Print Assumptions C09_short_source_not_ok_src.
 Print Assumptions C09_short_source_add_not_ok_src.
+
+(* ================= the bincode limit (BINCODE_MAX_DESERIALIZE, theories/Limit.v) =================
+   finalize serialises the footer under `.with_limit(BINCODE_MAX_DESERIALIZE)`.  Its failures are of
+   two kinds: a refusal known before anything is written (EState: already finalized, or a file is
+   still open) which leaves the state as it was (C09_refused_noop), and the SerializationError
+   (EDeser), which is NOT a refusal: it is returned AFTER the state became Finalized and the
+   EndOfArchiveData block was written.  Over the limit nothing more is written; from 2^32 on (only
+   reachable under a limit that large) the map is written without its length. *)
+Theorem C09_finalize_refused_cases {LIM : Limit} :
+  forall TS TC TA TE order s s' e,
+    w_finalize_with TS TC TA TE order s = (s', Err e) ->
+    (s' = s /\ e = EState) \/
+    (e = EDeser /\ w_final s = false /\ w_open s = [] /\
+     ((lim < len (ser_footer_map (order (w_footer s))) /\
+       s' = w_finalized s (w_out s ++ ser_block TS TC TA TE BEnd)) \/
+      (len (ser_footer_map (order (w_footer s))) <= lim /\ 2 ^ 32 <= len (ser_footer_map (order (w_footer s))) /\
+       s' = w_finalized s (w_out s ++ ser_block TS TC TA TE BEnd ++ ser_footer_map (order (w_footer s)))))).
+Proof. exact w_finalize_refused. Qed.
+Print Assumptions C09_finalize_refused_cases.
+
+(* the SerializationError of finalize wrote: the writer is Finalized (every later call but flush is
+   refused: C09_finalized_refuses), the state is not the one before the call, and the destination
+   holds the end marker, followed by nothing or by the footer map without its length *)
+Theorem C09_finalize_ser_error_wrote {LIM : Limit} :
+  forall TS TC TA TE order s s',
+    w_finalize_with TS TC TA TE order s = (s', Err EDeser) ->
+    w_final s' = true /\ s' <> s /\
+    exists tail, w_out s' = w_out s ++ ser_block TS TC TA TE BEnd ++ tail /\
+      (tail = [] \/ tail = ser_footer_map (order (w_footer s))).
+Proof. exact finalize_ser_error_wrote. Qed.
+Print Assumptions C09_finalize_ser_error_wrote.
+
+(* non-vacuity under a tiny limit: three one-byte files, then finalize.  The 3-file footer map is
+   larger than 40 bytes: under the limit 40 finalize returns the SerializationError, the writer is
+   Finalized, the destination ends with the EndOfArchiveData byte and a later call is refused;
+   under the limit 1000 the same calls end with Ok *)
+Example C09_finalize_limit_example :
+  let ops := [OAdd [97] 1 [1]; OAdd [98] 1 [2]; OAdd [99] 1 [3]; OFinalize] in
+  let H := fun _ : bytes => repeat 7 32 in
+  (let '(sf, rs) := wrun (LIM := 40) 48 0 1 254 255 H (fun f => f) w_init ops in
+   rs = [Ok 0; Ok 0; Ok 0; Err EDeser] /\ w_final sf = true /\ last (w_out sf) 0 = 254 /\
+   40 < len (ser_footer_map (w_footer sf)) /\
+   wstep (LIM := 40) 48 0 1 254 255 H (fun f => f) sf (OStart [100]) = (sf, Err EState)) /\
+  (let '(sf, rs) := wrun (LIM := 1000) 48 0 1 254 255 H (fun f => f) w_init ops in
+   rs = [Ok 0; Ok 0; Ok 0; Ok 0] /\ w_final sf = true /\
+   len (ser_footer_map (w_footer sf)) <= 1000).
+Proof. cbv zeta. split; vm_compute; repeat split; try reflexivity; discriminate. Qed.
